@@ -29,16 +29,83 @@ def sub(text, pattern, repl, path, count=0, flags=re.M):
     return new
 
 
+SYNC_MOVED = {"Mutex", "MutexGuard", "Condvar", "RwLock", "RwLockReadGuard", "RwLockWriteGuard"}
+
+
+def split_sync_import(m, target):
+    """`use std::sync::{Arc, Mutex, ...};` -> std part + controlled-scheduler part."""
+    items = [x.strip() for x in m.group(1).replace("\n", " ").split(",") if x.strip()]
+    keep, move, atomics = [], [], []
+    for it in items:
+        if it.startswith("atomic::") or it == "atomic":
+            atomics.append(it)
+        elif it.split("::")[0] in SYNC_MOVED:
+            move.append(it)
+        else:
+            keep.append(it)
+    out = []
+    if keep:
+        out.append("use std::sync::{%s};" % ", ".join(keep))
+    if move:
+        out.append("use %s::sync::{%s};" % (target, ", ".join(move)))
+    if atomics:
+        out.append("use %s::sync::{%s};" % (target, ", ".join(atomics)))
+    return "\n".join(out)
+
+
+def redirect_imports(text, target, with_threads):
+    """Generic redirection of synchronisation imports to `target` (shuttle or loom)."""
+    # atomics
+    text = re.sub(r"^(\s*)use std::sync::atomic(::|;)", lambda m: "%suse %s::sync::atomic%s" % (m.group(1), target, m.group(2)), text, flags=re.M)
+    # braced std::sync imports
+    text = re.sub(r"^use std::sync::\{([^}]*)\};", lambda m: split_sync_import(m, target), text, flags=re.M)
+    # single-item imports
+    text = re.sub(r"^use std::sync::(Mutex|MutexGuard|Condvar|RwLock)\b", lambda m: "use %s::sync::%s" % (target, m.group(1)), text, flags=re.M)
+    if with_threads:
+        text = re.sub(r"^use std::thread::\{", "use %s::thread::{" % target, text, flags=re.M)
+        text = re.sub(r"^use std::thread;", "use %s::thread;" % target, text, flags=re.M)
+        text = re.sub(r"^use std::thread::(\w+);", lambda m: "use %s::thread::%s;" % (target, m.group(1)), text, flags=re.M)
+        # `use std::{fmt, panic, thread};`
+        def braces(m):
+            items = [x.strip() for x in m.group(1).split(",") if x.strip()]
+            if "thread" not in items:
+                return m.group(0)
+            items.remove("thread")
+            return "use std::{%s};\nuse %s::thread;" % (", ".join(items), target)
+        text = re.sub(r"^use std::\{([^}]*)\};", braces, text, flags=re.M)
+        # Instant -> deterministic stand-in
+        def times(m):
+            items = [x.strip() for x in m.group(1).split(",") if x.strip()]
+            if "Instant" not in items:
+                return m.group(0)
+            items.remove("Instant")
+            head = ("use std::time::{%s};\n" % ", ".join(items)) if items else ""
+            return head + "use crate::vxshim::Instant;"
+        text = re.sub(r"^use std::time::\{([^}]*)\};", times, text, flags=re.M)
+        text = re.sub(r"^use std::time::Instant;", "use crate::vxshim::Instant;", text, flags=re.M)
+        text = re.sub(r"(?<![:\w])thread_local!\s*\{", "%s::thread_local! {" % target, text)
+        text = text.replace("::std::thread_local!", "::%s::thread_local!" % target)
+        text = re.sub(r"^use std::thread::LocalKey;", "use %s::thread::LocalKey;" % target, text, flags=re.M)
+    return text
+
+
+# Files whose synchronisation imports are redirected to shuttle (the crate's own
+# concurrency: channel, executors, simulation front-end, scheduler, time cell).
+SHUTTLE_FILES = [
+    "channel.rs", "channel/queue.rs", "executor/mt_executor.rs", "executor/mt_executor/pool_manager.rs",
+    "executor/mt_executor/injector.rs", "executor/st_executor.rs", "simulation.rs", "simulation/scheduler.rs",
+    "simulation/sim_init.rs", "time/monotonic_time.rs", "macros/scoped_thread_local.rs",
+]
+# Post-conditions: after the redirection these patterns must be absent from the redirected files.
+SHUTTLE_FORBIDDEN = [r"\bstd::sync::Mutex\b", r"use std::sync::atomic", r"use std::thread", r"std::time::Instant", r"(?<![:\w])thread_local!"]
+LOCALKEY_FILES = ["channel.rs", "executor/mt_executor.rs", "executor/st_executor.rs", "simulation.rs"]
+
 SHUTTLE_RULES = {
     "channel.rs": [
-        (r"^use std::sync::atomic::", "use shuttle::sync::atomic::"),
-        (r"\bthread_local! \{", "shuttle::thread_local! {"),
-        (r"^use std::cell::Cell;", "use std::cell::Cell;\n#[allow(unused_imports)]\nuse crate::vxshim::LocalKeyCellExt;"),
         (r"^mod queue;", "pub(crate) mod queue;"),
     ],
     "channel/queue.rs": [
         (r"pub\(super\)", "pub(crate)"),
-        (r"^use std::sync::atomic::Ordering;", "use shuttle::sync::atomic::Ordering;"),
     ],
     "executor.rs": [
         (r"^mod task;", "pub(crate) mod task;"),
@@ -46,66 +113,28 @@ SHUTTLE_RULES = {
         (r"^mod st_executor;", "pub(crate) mod st_executor;"),
     ],
     "executor/mt_executor.rs": [
-        (r"^use std::sync::atomic::", "use shuttle::sync::atomic::"),
-        (r"^use std::sync::\{Arc, Mutex\};", "use std::sync::Arc;\nuse shuttle::sync::Mutex;"),
-        (r"^use std::thread::\{self, JoinHandle\};", "use shuttle::thread::{self, JoinHandle};\n#[allow(unused_imports)]\nuse crate::vxshim::LocalKeyCellExt;"),
-        (r"^use std::time::\{Duration, Instant\};", "use std::time::Duration;\nuse crate::vxshim::Instant;"),
         (r"^mod injector;", "pub(crate) mod injector;"),
         (r"^mod pool_manager;", "pub(crate) mod pool_manager;"),
     ],
-    "executor/mt_executor/pool_manager.rs": [
-        (r"^use std::sync::atomic::", "use shuttle::sync::atomic::"),
-        (r"^use std::sync::Mutex;", "use shuttle::sync::Mutex;"),
-    ],
-    "executor/mt_executor/injector.rs": [
-        (r"^use std::sync::atomic::", "use shuttle::sync::atomic::"),
-        (r"^use std::sync::Mutex;", "use shuttle::sync::Mutex;"),
-    ],
-    "executor/st_executor.rs": [
-        (r"^use std::\{fmt, panic, thread\};", "use std::{fmt, panic};\nuse shuttle::thread;\n#[allow(unused_imports)]\nuse crate::vxshim::LocalKeyCellExt;"),
-    ],
     "simulation.rs": [
-        (r"^use std::sync::\{Arc, Mutex, MutexGuard\};", "use std::sync::Arc;\nuse shuttle::sync::{Mutex, MutexGuard};"),
-        (r"^thread_local! \{", "shuttle::thread_local! {"),
-        (r"^use std::cell::Cell;", "use std::cell::Cell;\n#[allow(unused_imports)]\nuse crate::vxshim::LocalKeyCellExt;"),
         (r"^mod scheduler;", "pub(crate) mod scheduler;"),
-    ],
-    "simulation/scheduler.rs": [
-        (r"^use std::sync::atomic::", "use shuttle::sync::atomic::"),
-        (r"^use std::sync::\{Arc, Mutex\};", "use std::sync::Arc;\nuse shuttle::sync::Mutex;"),
-    ],
-    "simulation/sim_init.rs": [
-        (r"^use std::sync::\{Arc, Mutex\};", "use std::sync::Arc;\nuse shuttle::sync::Mutex;"),
-    ],
-    "time/monotonic_time.rs": [
-        (r"^use std::sync::atomic::", "use shuttle::sync::atomic::"),
-    ],
-    "macros/scoped_thread_local.rs": [
-        (r"^use std::thread::LocalKey;", "use shuttle::thread::LocalKey;"),
-        (r"::std::thread_local!", "::shuttle::thread_local!"),
     ],
     "lib.rs": [
         (r"^mod loom_exports;", "extern crate self as nexosim;\npub(crate) mod loom_exports;\npub(crate) mod vxshim;\n#[path = \"%(HARNESS)s/mod.rs\"]\npub mod vxharness;"),
     ],
-    "simulation.rs#2": [],
 }
 
+LOOM_FILES = ["channel/queue.rs", "time/monotonic_time.rs"]
+LOOM_FORBIDDEN = [r"use std::sync::atomic"]
 LOOM_RULES = {
     "channel.rs": [
         (r"^mod queue;", "pub(crate) mod queue;"),
     ],
     "channel/queue.rs": [
         (r"pub\(super\)", "pub(crate)"),
-        (r"^use std::sync::atomic::Ordering;", "use loom::sync::atomic::Ordering;"),
     ],
     "executor.rs": [
         (r"^mod task;", "pub(crate) mod task;"),
-    ],
-    "time/monotonic_time.rs": [
-        (r"^use std::sync::atomic::", "use loom::sync::atomic::"),
-    ],
-    "util/sync_cell.rs": [
-        (r"^use std::cell::Cell;", "use std::cell::Cell;"),
     ],
     "lib.rs": [
         (r"^mod loom_exports;", "extern crate self as nexosim;\npub(crate) mod loom_exports;\n#[path = \"%(HARNESS)s/mod.rs\"]\npub mod vxharness;"),
@@ -131,6 +160,27 @@ def main():
         if os.path.exists(p):
             pass
     try:
+        files, forbidden, target, threads = {
+            "shuttle": (SHUTTLE_FILES, SHUTTLE_FORBIDDEN, "shuttle", True),
+            "loom": (LOOM_FILES, LOOM_FORBIDDEN, "loom", False),
+        }[flavour]
+        for rel in files:
+            path = os.path.join(dest, "src", rel)
+            if not os.path.exists(path):
+                raise RuleError("file to redirect is missing: " + rel)
+            st = os.stat(path)
+            text = redirect_imports(open(path).read(), target, threads)
+            if flavour == "shuttle" and rel in LOCALKEY_FILES:
+                # std LocalKey<Cell<_>> conveniences for shuttle's LocalKey.
+                text = re.sub(r"^(use [^\n]*;\n)", r"\1#[allow(unused_imports)]\nuse crate::vxshim::LocalKeyCellExt;\n", text, count=1, flags=re.M)
+            code = "\n".join(l for l in text.split("\n") if not l.lstrip().startswith("//"))
+            # test modules are not compiled in the mirror
+            code = code.split("#[cfg(all(test")[0].split("#[cfg(test)]")[0]
+            for pat in forbidden:
+                if re.search(pat, code):
+                    raise RuleError("%s still contains %s after the import redirection" % (rel, pat))
+            open(path, "w").write(text)
+            os.utime(path, (st.st_atime, st.st_mtime))
         for rel, rl in rules.items():
             if "#" in rel:
                 continue
